@@ -210,14 +210,13 @@ Definition batch_finding (e : eng) (ops : list bop) (c : rclass) : N :=
   end.
 
 (* one step: contract state, held record -> new contract state and held record, or a verdict *)
-Definition o_step (e : eng) (cs : cstore) (h : option item) (o : sop) (ob : obs)
+Definition o_step_gen (m : dcmode) (fnd : list bop -> rclass -> N) (cs : cstore) (h : option item) (o : sop) (ob : obs)
   : (cstore * option item) + N :=
-  let m := mode_of e in
   let batch ops c cf :=
       let r := batch_eval m cs ops in
       if batch_proj_ok ops r c cf
       then inl (match r with Applied cs' => cs' | CondFailed _ _ => cs end, h)
-      else inr (batch_finding e ops c) in
+      else inr (fnd ops c) in
   match o, ob with
   | SBatch l, OBatch c cf =>
       match resolve_all h l with
@@ -231,11 +230,11 @@ Definition o_step (e : eng) (cs : cstore) (h : option item) (o : sop) (ob : obs)
       end
   | SDel k, ODel c => batch [Del k] c None
   | SIter a b l, OIter c out =>
-      let all := citems cs a b in
+      let all := citems m cs a b in
       if rclass_eqb c ROk && is_prefix out (map item_kv all) && Nat.leb (min_count l (length all)) (length out)
       then inl (cs, h) else inr 0
   | SHold a b l j, OHold c out held =>
-      let all := citems cs a b in
+      let all := citems m cs a b in
       if rclass_eqb c ROk && is_prefix out (map item_kv all) &&
          (if held then Nat.eqb (length out) (S j) else Nat.leb (min_count l (length all)) (length out) && Nat.leb (length out) j)
       then inl (cs, if held then nth_error all j else None) else inr 0
@@ -247,15 +246,18 @@ Definition o_step (e : eng) (cs : cstore) (h : option item) (o : sop) (ob : obs)
   | _, _ => inr 0
   end.
 
-Fixpoint o_run (e : eng) (cs : cstore) (h : option item) (steps : list (sop * obs)) : cstore + N :=
+Fixpoint o_run_gen (m : dcmode) (fnd : list bop -> rclass -> N) (cs : cstore) (h : option item) (steps : list (sop * obs))
+  : cstore + N :=
   match steps with
   | [] => inl cs
   | (o, ob) :: rest =>
-      match o_step e cs h o ob with
-      | inl (cs', h') => o_run e cs' h' rest
+      match o_step_gen m fnd cs h o ob with
+      | inl (cs', h') => o_run_gen m fnd cs' h' rest
       | inr code => inr code
       end
   end.
+
+Definition o_run (e : eng) := o_run_gen (mode_of e) (batch_finding e).
 
 (* all or nothing, whatever the size: an error of any class means that none of the batch is stored; success means
    all of it is; and a batch whose condition fails may not succeed *)
